@@ -44,8 +44,13 @@ func rawConnect(svr *service.Server, id int, c wConnect) (*rawClient, bool) {
 
 // rawConnectWith: wait = false returns when the CONNECT has been written (the answer stays in items)
 func rawConnectWith(svr *service.Server, id int, c wConnect, wait bool) (*rawClient, bool) {
-	cl, sv := net.Pipe()
+	cl, sv0 := net.Pipe()
+	var sv net.Conn = sv0
 	rc := newRawClient(id, cl)
+	if halfCloseable {
+		rc.half = newHalfConn(sv0)
+		sv = rc.half
+	}
 	rc.stopped = make(chan struct{})
 	stoppedMu.Lock()
 	stoppedChans[sv] = rc.stopped
